@@ -8,7 +8,11 @@ writes lean/IstioModel/Generated/C01Table.lean (bit masks); GenTie*.lean prove m
 row by `decide +kernel`.  T-diff stream `needs`: random multi-key requests through the real functions
 (each called several times: Go map order) against the Lean model.
 """
+import json
 import os
+import random
+
+from checks import e2e_common
 
 TIE_PARTS = ["IstioModel.C01.GenTie" + x for x in ("T1", "T2", "T3", "T4", "T5", "T6", "T7", "P1", "P2", "P3", "P4", "P5", "P6", "S")]
 THEOREMS = TIE_PARTS + ["IstioModel.C01.GenTie", "IstioModel.C01.Theorems", "IstioModel.C01.ProtocolTheorems",
@@ -132,7 +136,7 @@ def converge_verdicts(ctx, case_list, tag):
     if os.path.exists(out):
         os.remove(out)
     # ambient histories need the ambient feature switched on when the process starts (features are read at start-up)
-    env_extra = {"PILOT_ENABLE_AMBIENT": "true"} if any(c[0].split()[-1] == "ambient" for c in case_list) else None
+    env_extra = {"PILOT_ENABLE_AMBIENT": "true"} if any("ambient" in c[0].split()[5:] for c in case_list) else None
     rc, log = ctx.harness("oracle", "converge", ops, out, timeout=3000, env_extra=env_extra)
     v = ctx.read_lines(out) if os.path.exists(out) else []
     if rc != 0 or len(v) != len(case_list):
@@ -167,7 +171,11 @@ def converge_fingerprint(case, verdict):
     return "converge:%s:%s%s" % (clause, "+".join(sorted(kinds)) or "-", changed)
 
 
-SOFT_KINDS = ("stale-san", "stale-mx")
+# differences of a classified kind are recorded findings; the harness attaches the kind only under the conditions that
+# make a difference THAT finding (see classify / relabel* in harness/c01/converge.go)
+SOFT_KINDS = ("stale-san", "stale-mx", "stale-provider-unimported", "stale-sidecar-switches-service")
+# a finding that another stream of C01 already records keeps that fingerprint
+SAME_FINDING = {"stale-sidecar-switches-service": "e2e:long-ne-fresh:eds-not-pushed:sidecar-switches-service-for-host"}
 
 
 def converge_fingerprints(case, verdict):
@@ -175,11 +183,11 @@ def converge_fingerprints(case, verdict):
     otherwise the single fingerprint of converge_fingerprint."""
     fp = converge_fingerprint(case, verdict)
     parts = fp.split(":")
-    if len(parts) >= 4 and parts[-1] in SOFT_KINDS or len(parts) >= 4:
+    if len(parts) >= 4:
         body = fp[len("converge:" + parts[1] + ":"):]
         kinds = body.split("+")
         if all(k.count(":") == 1 and k.split(":")[1] in SOFT_KINDS for k in kinds):
-            return ["converge:%s:%s" % (parts[1], k) for k in kinds]
+            return sorted(set(SAME_FINDING.get(k.split(":")[1], "converge:%s:%s" % (parts[1], k)) for k in kinds))
     return [fp]
 
 
@@ -222,20 +230,47 @@ def converge_minimise(ctx, case, verdict, budget=10):
     return best, best_v
 
 
-def run_converge(ctx, n, sweep=False, ambient=False):
+UNREPRODUCED_LIMIT = 3
+
+
+def unreproduced_is_verdict(ctx, fp, case, verdict):
+    """A difference that persisted for seconds in a quiescent system but did not show again when the history was re-run is a
+    race, not noise: nothing re-triggers it in production either.  One occurrence is logged; the same fingerprint seen
+    UNREPRODUCED_LIMIT times (counted across runs in work/C01/unreproduced.json, and within a run) becomes a verdict."""
+    path = os.path.join(ctx.work, "unreproduced.json")
+    try:
+        seen = json.load(open(path))
+    except (OSError, ValueError):
+        seen = {}
+    e = seen.setdefault(fp, {"count": 0, "last": []})
+    e["count"] += 1
+    e["last"] = case
+    try:
+        with open(path, "w") as f:
+            json.dump(seen, f, indent=1)
+    except OSError:
+        pass
+    return e["count"] >= UNREPRODUCED_LIMIT
+
+
+def run_converge(ctx, n, sweep=False, ambient=False, slice_n=0):
     """sweep=False: corpus + n random histories. sweep=True: every single-change history of the grammar (targeted search
     when a tie is broken; part of the thorough tier). ambient=True: histories incl. the ambient objects, with a waypoint
     proxy and a ztunnel-like delta client (PILOT_ENABLE_AMBIENT=true)."""
     import verif as V
     name = "converge-sweep" if sweep else ("converge-ambient" if ambient else "converge")
     st = {"cases": 0, "ops": 0, "agree": True}
-    ctx.streams[name] = st
+    ctx.streams[name + (("-slice" if slice_n else str(n)) if sweep else "")] = st
     case_list = []
     cdir = os.path.join(V.HARNESS, "corpus", ctx.pid)
     if os.path.isdir(cdir) and not sweep and not ambient:
         for f in sorted(os.listdir(cdir)):
             if f.startswith("converge.") and f.endswith(".ops"):
                 case_list += split_cases(ctx.read_lines(os.path.join(cdir, f)))
+        # corpus histories are compared with a cold-started server after EVERY step, not only at the end
+        for c in case_list:
+            if "coldeach" not in c[0].split()[5:]:
+                c[0] += " coldeach"
     ncorpus = len(case_list)
     g = os.path.join(ctx.work, "%s.gen.ops" % name)
     if os.path.exists(g):
@@ -244,7 +279,12 @@ def run_converge(ctx, n, sweep=False, ambient=False):
     if rc != 0 or not os.path.exists(g):
         ctx.tie_broken("harness-gen:converge", log)
         return
-    case_list += split_cases(ctx.read_lines(g))
+    generated = split_cases(ctx.read_lines(g))
+    if slice_n:
+        # a seeded slice of the sweep (every quick run sees a different part of it as the seed varies)
+        rnd = random.Random(int(ctx.seed) * 7919 + 13)
+        generated = rnd.sample(generated, min(slice_n, len(generated)))
+    case_list += generated
     verdicts, log = converge_verdicts(ctx, case_list, name)
     if verdicts is None:
         ctx.tie_broken("stream-run:converge", "the converge oracle did not complete:\n" + log[-3000:])
@@ -284,8 +324,10 @@ def run_converge(ctx, n, sweep=False, ambient=False):
                 if again == 0:
                     ctx.count("converge.unreproduced-differences")
                     ctx.extra.setdefault("unreproduced_differences", []).append({"ops": c, "verdict": v[:1500]})
-                    ctx.log("converge case %d: the difference did not show again in both of 2 more runs - not reported" % i)
-                    continue
+                    if not unreproduced_is_verdict(ctx, fps[0], c, v):
+                        ctx.log("converge case %d: the difference did not show again in both of 2 more runs - not reported" % i)
+                        continue
+                    ctx.log("converge case %d: a difference of this class was unreproduced %d times - reported" % (i, UNREPRODUCED_LIMIT))
                 if not any(x["fingerprint"].startswith("converge:") for x in ctx.violations):
                     small, small_v = converge_minimise(ctx, c, v)  # shrink the first one only (each run costs seconds)
                 else:
@@ -297,8 +339,8 @@ def run_converge(ctx, n, sweep=False, ambient=False):
                               + small_v.split(" ||")[0][:300],
                               {"stream": "converge", "ops": small, "oracle_verdict": small_v[:6000], "original_case": c,
                                "original_verdict": v[:3000]}, True)
-    ctx.counters["%s.type-pushes" % name] = pushed
-    ctx.counters["%s.type-skips" % name] = skipped
+    ctx.counters["%s.type-pushes" % name] = ctx.counters.get("%s.type-pushes" % name, 0) + pushed
+    ctx.counters["%s.type-skips" % name] = ctx.counters.get("%s.type-skips" % name, 0) + skipped
     ctx.log("stream %s: %d histories (%d corpus), %d (proxy,type) pushes and %d skips observed, %s"
             % (name, st["cases"], ncorpus, pushed, skipped, "all converged" if st["agree"] else "DIFFERENCES"))
 
@@ -342,13 +384,21 @@ def run(ctx):
         return
     n = ctx.n(3000, 60000)
     ctx.diff_stream("needs", n, oracle=oracle)
-    run_converge(ctx, ctx.n(30, 700))
-    run_converge(ctx, ctx.n(12, 200), ambient=True)
+    run_converge(ctx, ctx.n(30, 400))
+    run_converge(ctx, ctx.n(12, 150), ambient=True)
     tie_broken = (not proved) or not ctx.streams.get("needs", {}).get("agree", True)
-    found = any(v["found"] and v["fingerprint"].startswith("converge") for v in ctx.violations)
-    if (tie_broken and not found) or not ctx.quick():
-        # targeted search for a failing input (DESIGN "On break"): every single-change history of the grammar
-        run_converge(ctx, 0, sweep=True)
+
+    def found():
+        return any(v["found"] and v["fingerprint"].startswith("converge") for v in ctx.violations)
+    # the single-change sweep over three rich base meshes: whole in the thorough tier; base by base as the targeted search for
+    # a failing input when a tie is broken (DESIGN "On break"), stopping at the first base that yields one
+    for base in (0, 1, 2):
+        if not ctx.quick() or (tie_broken and not found()):
+            run_converge(ctx, base, sweep=True)
+    if ctx.quick() and not tie_broken:
+        run_converge(ctx, -1, sweep=True, slice_n=20)
+    # the end-to-end stream of harness/e2e (notes/E2E.md): real server, real generators, SotW and delta clients
+    e2e_common.run(ctx, "c01", ctx.n(12, 200))
     # the property-level oracle (order independence, monotonicity in keys and under merging, Forced) runs on every generated
     # case as a second line, independently of the model
     g = os.path.join(ctx.work, "needs.gen.ops")
@@ -358,15 +408,28 @@ def run(ctx):
 
 
 def replay(ctx, path):
-    import json
     obj = json.load(open(path))
     rep = obj.get("replay", {})
+    if e2e_common.is_e2e_replay(rep):
+        return e2e_common.replay(ctx, rep)
     ops = rep.get("ops") or (rep.get("extra") or {}).get("ops")
     stream = rep.get("stream") or (rep.get("extra") or {}).get("stream") or "needs"
     if not ops:
         ctx.log("replay file has no ops; re-running the full check")
         return run(ctx)
     if not (ctx.build_drv() and ctx.go_build()):
+        return
+    if stream == "converge":
+        v, log = converge_verdicts(ctx, split_cases(ops), "replay")
+        if v is None:
+            ctx.tie_broken("stream-run:converge", "the converge oracle did not complete:\n" + log[-3000:])
+            return
+        for c, line in zip(split_cases(ops), v):
+            ctx.log("replay: %s" % line[:400])
+            if line.startswith("FAIL"):
+                for fp in converge_fingerprints(c, line):
+                    ctx.violation(fp, "replayed history: " + line.split(" ||")[0][:300],
+                                  {"stream": "converge", "ops": c, "oracle_verdict": line[:6000]}, True)
         return
     p = os.path.join(ctx.work, "replay.ops")
     with open(p, "w") as f:
